@@ -45,7 +45,8 @@ Definition verdict (c : c3case) : N :=
     let o_rt := dres_eqb dec (DOk cm 0) in
     let o_repr := representable m in
     let o_un := (csum_un =? 65536) || (csum_un =? csum_in_bytes kind hs b) in
-    let bad := valid && negb (o_len && o_spec && o_csum && o_rt && o_repr && o_un) in
+    let o_lf := length_fields_match kind b hs in      (* written length fields = true sizes, as numbers *)
+    let bad := valid && negb (o_len && o_lf && o_spec && o_csum && o_rt && o_repr && o_un) in
     (* noncanon: the harness saw an accepted model whose catch-all enum variant spells a known
        number come back from the decoder as the named variant (Rust ==) *)
     let known_tag := noncanon in
